@@ -32,7 +32,7 @@ var c06Operands = map[string][7]string{
 	"STR": {"str", "s.name", "s.in.name", "mkS().name", "strs[i]", "(str)", "In{name: \"a\"}.name"},
 	"M":   {"m", "s.m", "s.in.m", "mkS().m", "ms[i]", "(m)", "map[uint64]uint64{x: i}"},
 	"P":   {"l", "s.log", "s.in.log", "mkS().log", "logs[i]", "(l)", "&Log{n: x}"},
-	"KEY": {"[2]uint64", "struct{ a uint64 }", "*uint64", "*In", "In", "[1][2]bool", "Log"},
+	"KEY": {"[2]uint64", "struct{ a uint64 }", "*uint64", "*In", "FL", "[1][2]bool", "Log"},
 }
 
 type c06Construct struct {
@@ -52,12 +52,12 @@ var c06Constructs = []c06Construct{
 	{"conversion-from-float", "\treturn uint64({F})\n"},
 	{"conversion-to-string", "\treturn uint64(len(string(rune({U}))))\n"},
 	{"binary-operator-andnot", "\treturn {U} &^ {U2}\n"},
-	{"string-ordered-comparison", "\tif {STR} < \"b\" {\n\t\treturn {U}\n\t}\n\treturn 0\n"},
+	{"string-ordered-comparison", "\tif ({STR} < \"b\") {\n\t\treturn {U}\n\t}\n\treturn 0\n"},
 	{"assign-op-mul", "\tvar v uint64 = x\n\t{L} *= 2\n\treturn v\n"},
 	{"assign-op-shift", "\tvar v uint64 = x\n\t{L} <<= {U}\n\treturn v\n"},
 	{"assign-op-add-through-call", "\tvar v uint64 = x\n\txs[mkS().n] += {U}\n\t{L} += 1\n\treturn v\n"},
 	{"multiple-assignment", "\tvar v uint64 = x\n\tvar w uint64 = i\n\t{L}, w = w, {U}\n\treturn v + w\n"},
-	{"nil-comparison-of-map", "\tif {M} == nil {\n\t\treturn 1\n\t}\n\treturn 0\n"},
+	{"nil-comparison-of-map", "\tif ({M} == nil) {\n\t\treturn 1\n\t}\n\treturn 0\n"},
 	{"call-of-function-value", "\treturn {FN}({U})\n"},
 	{"index-into-string", "\treturn uint64({STR}[{U}])\n"},
 	{"copy-from-string", "\tb := make([]byte, 8)\n\treturn uint64(copy(b, {STR}))\n"},
@@ -66,20 +66,20 @@ var c06Constructs = []c06Construct{
 	{"capacity-of-map-len-of-array", "\tvar a [4]uint64\n\treturn uint64(len(a)) + {U}\n"},
 	{"unary-minus", "\treturn -{U}\n"},
 	{"unary-complement", "\treturn ^{U} + +{U2}\n"},
-	{"switch", "\tswitch {U} {\n\tcase 1:\n\t\treturn 2\n\t}\n\treturn 3\n"},
-	{"defer", "\tdefer {P}.Self()\n\treturn {U}\n"},
-	{"range-over-string", "\tvar t uint64 = 0\n\tfor _, c := range {STR} {\n\t\tt = t + uint64(c)\n\t}\n\treturn t\n"},
+	{"switch", "\tswitch ({U}) {\n\tcase 1:\n\t\treturn 2\n\t}\n\treturn 3\n"},
+	{"defer", "\tdefer ({P}).Self()\n\treturn {U}\n"},
+	{"range-over-string", "\tvar t uint64 = 0\n\tfor _, c := range ({STR}) {\n\t\tt = t + uint64(c)\n\t}\n\treturn t\n"},
 	{"three-index-slice", "\tt := {SL}[0:1:2]\n\treturn uint64(len(t))\n"},
 	{"slice-of-string", "\tt := {STR}[1:]\n\treturn uint64(len(t))\n"},
 	{"type-assertion", "\tvar e interface{} = {U}\n\treturn e.(uint64)\n"},
 	{"channel", "\tc := make(chan uint64, 1)\n\tc <- {U}\n\treturn <-c\n"},
-	{"method-value", "\tg := {P}.Self\n\treturn g().n\n"},
-	{"struct-comparison", "\tif *{P} == (Log{n: {U}}) {\n\t\treturn 1\n\t}\n\treturn 0\n"},
+	{"method-value", "\tg := ({P}).Self\n\treturn g().n\n"},
+	{"struct-comparison", "\tif (*({P}) == Log{n: {U}}) {\n\t\treturn 1\n\t}\n\treturn 0\n"},
 	{"address-of-operand", "\tvar v uint64 = x\n\tp := &{L}\n\treturn *p + v\n"},
-	{"if-with-init", "\tif y := {U}; y > 1 {\n\t\treturn y\n\t}\n\treturn 0\n"},
+	{"if-with-init", "\tif y := ({U}); y > 1 {\n\t\treturn y\n\t}\n\treturn 0\n"},
 	{"append-spread", "\tt := append({SL}, {SL2}...)\n\treturn uint64(len(t))\n"},
-	{"go-statement-with-method-value", "\tgo {P}.Self()\n\treturn {U}\n"},
-	{"labeled-break", "L:\n\tfor {\n\t\tif {U} > 1 {\n\t\t\tbreak L\n\t\t}\n\t}\n\treturn 0\n"},
+	{"go-statement-with-method-value", "\tgo ({P}).Self()\n\treturn {U}\n"},
+	{"labeled-break", "L:\n\tfor {\n\t\tif ({U} > 1) {\n\t\t\tbreak L\n\t\t}\n\t}\n\treturn 0\n"},
 	{"select-statement", "\tc := make(chan uint64)\n\tselect {\n\tcase v := <-c:\n\t\treturn v + {U}\n\tdefault:\n\t}\n\treturn 0\n"},
 }
 
